@@ -41,10 +41,12 @@ def c08_coverage(res, n_runs, t_batch, workers):
                    'host states (per config: carries-text, calls so far, raised-before, holder, type; per cache: '
                    'filled, #option sets that hit it; census dirty) and (state, op, fault, state) steps.')
     cov['containers_tracked_by_census'] = res.extra.get('containers_tracked', 0)
-    cov['systematic_sweep'] = ('the first sweep_size(tier) evaluations are the systematic fault sweep (sim/gen_sweep.py: %d call shapes x '
-                               'evenly spaced F5/F4/F3 placements, each followed by probes): quick %d, thorough %d histories; '
-                               'all further evaluations are seeded histories' % (len(gen_sweep.shapes()), gen_sweep.sweep_size('quick'),
-                                                                                 gen_sweep.sweep_size('thorough')))
+    cov['systematic_sweep'] = (
+        'the first sweep_size(tier) evaluations are deterministic: a systematic fault sweep (sim/gen_sweep.py: %d call shapes x '
+        'evenly spaced F5/F4/F3 placements, each followed by probes) plus %d scripted fault-free scenarios (every kind of host '
+        'action between two looks at the same objects; every syntax from three fresh configs in a row): quick %d, thorough %d '
+        'histories; all further evaluations are seeded histories' % (
+            len(gen_sweep.shapes()), len(gen_sweep.scenarios()), gen_sweep.sweep_size('quick'), gen_sweep.sweep_size('thorough')))
     cov['samples'] = [sample_of(o) for o in res.samples[:4]]
     return cov
 
